@@ -34,6 +34,8 @@ func init() {
 		Rule: "scenarios under the Go race detector (binary built with -race, reports collected from GORACE log files, halt_on_error=0): " +
 			"(A) compute: N in {2,4,16} goroutines, each with its own LState, all executing the same pre-compiled prototypes (generated core/call/closure/coroutine programs and pattern/format/table-heavy scripts) while other goroutines create and close states, compile new chunks and churn auto-growing call stacks; every state's trace must equal the sequential reference and a deep digest of every shared FunctionProto (all exported fields + stringConstants, recursively) must be unchanged; " +
 			"(B) channels: P producers x C consumers as Lua scripts over shared channels of capacity 0/1/8, unique payloads (sender, seq), every send/receive/close stamped at the client boundary with a shared atomic clock; offline: multiset sent == received (exactly once), per-sender order at every receiver, (false,nil) only after close and drain, porcupine linearizability against a FIFO-queue-with-close model (10 s per channel, timeout = inconclusive); " +
+			"every consumer also keeps what it received in a table and reads it back after the producers' states are closed and another state has done arithmetic (a received value stays what it was); " +
+			"(B2) conservation under cancellation: 64-256 unique values queued, the state's context cancelled, receives through the Go API: delivered + still queued = every value exactly once and in order, a refused receive takes nothing; the mirror for sends (accepted = in the channel once, refused = absent); " +
 			"shared prototypes also include a traceback/argument-error workload (names resolved through fs[i]() and tail-call sites) and a math.randomseed/math.random workload; " +
 			"(C) on a state without and with an (undone) context: select readiness by handshake (only ready cases are picked, default only when none is ready) and payload refusal (function, userdata, thread, table with metatable raise; plain tables pass by reference); " +
 			"GOMAXPROCS in {2,4,16} and seeded jitter (Gosched/short spins) between Lua operations; non-trivial = a scenario with >=2 concurrent states and >=50 events or trace entries; distinct by scenario hash",
